@@ -5,5 +5,5 @@ CONSTANTS
   Bug <- EnvBug
   FullOps <- EnvFull
 VIEW IView
-INVARIANTS ITypeOK Refines EqualSetsEqualWords ObserversAgree NoPadding ConstructorsAgree
+INVARIANTS ITypeOK Refines EqualSetsEqualWords ObserversAgree NoPadding UnderlyingAgrees ConstructorsAgree
 CHECK_DEADLOCK FALSE
